@@ -684,6 +684,12 @@ def o_c16(ctx):
     srcs = P.corpus_sources() + [s for s, _ in S.gen_sources(S.n_for(150, 3000), salt="c16")] + S.mutated_sources(S.n_for(80, 1500), salt="c16/m")
     srcs = [s for s in srcs if "\r" not in s.replace("\r\n", "")]
     srcs += ["\ufeffFeature: f\n  Scenario: s\n    Given g\n", "\ufeff# language: fr\nFonctionnalité: f\n", "Feature: f\n  \ufeffScenario: s\n    Given \ufeff g\n"]
+    # rejected documents whose offending lines are long (messages quote the trimmed line, whatever its length)
+    for n in [20, 127, 200, 300] + list(range(80, 104)):
+        w = ("x" * n)
+        srcs.append("Feature: f\n  Scenario: s\n    Given g\n      | a |\n    Examples: %s\n  Scenario: t\n" % w)
+        srcs.append("Feature: f\n  Scenario: s\n    Given %s\n  @t\n  | %s |\n" % (w, w))
+        srcs.append("Feature: f\n  Background: b\n    When %s\n  Feature: %s\n" % (w, w))
     r = rng("c16o")
     D = S.dialects()
     for code in sorted(D)[::S.n_for(6, 1)]:
@@ -2112,7 +2118,8 @@ def o_source_files(pid):
         def check(text):
             d = tempfile.mkdtemp(prefix="verif-src-")
             try:
-                path = os.path.join(d, "x.feature")
+                # the file's name has no bearing on the envelope (the Python stream always reads plain Gherkin)
+                path = os.path.join(d, ["x.feature", "notes.feature.md", "README.md", "x.FEATURE", "no-extension", "a b.feature.txt"][texts.index(text) % 6])
                 with open(path, "w", encoding="utf8", newline="") as f:
                     f.write(text)
                 evs = list(SourceEvents([path]).enum())
@@ -2236,3 +2243,191 @@ def c09_many_occurrences(ctx):
 
 
 P.PROPS["C09"]["streams"].append(c09_many_occurrences)
+
+
+# ---------------------------------------------------------------- round-7 strengthening: text is code points, not canonical forms
+NON_NFC = ["é", "üx", "Å", "Ω", "கொ", "Å", "ẛ̣", "q̣̇", "̸x", "ñ", "豈", "   x"]
+
+
+def unicode_form_sources():
+    """documents whose names, step texts, cells, tags, descriptions, doc strings, media types, headers and comments are
+    written in decomposed / singleton / compatibility forms (not NFC, not NFD-stable either)"""
+    srcs = []
+    for i, w in enumerate(NON_NFC):
+        v = NON_NFC[(i + 1) % len(NON_NFC)]
+        srcs.append("# c %s\n@t%s @%s\nFeature: f %s\n  d %s\n\n  Background: b%s\n    Given g %s\n      | %s | x%s |\n      | y | %s\\n%s |\n"
+                    "  @s%s\n  Scenario Outline: o %s <%s> <h>\n    When w <%s> %s\n      \"\"\"%s\n      c %s\n    less %s\n      <%s>\n      \"\"\"\n"
+                    "    Then <h> t\n      ```\n  %s\n      ```\n    Examples: e %s\n      | %s | h |\n      | %s | 1 |\n      | <h> | %s |\n"
+                    % (w, w, v, w, v, w, v, w, v, w, v, w, v, w, w, v, v, w, v, w, w, v, w, v, w))
+        srcs.append("Feature:%s\n  Rule:%s\n    Example:%s\n      *%s\n      | \\%s |%s|\n" % (w, v, w, " " + v, w, v))
+    return srcs
+
+
+def unicode_forms_stream(name, proj):
+    def run(ctx):
+        srcs = unicode_form_sources()
+        return e2e("unicode-forms/" + name, srcs, proj, nontrivial=nt_accepted("ast"), exhaustive=True)
+    run.__name__ = "unicode_forms_" + name
+    run.__doc__ = "text is taken code point by code point: decomposed, singleton and compatibility forms are left as written (" + name + ")"
+    return run
+
+
+for _pid, _pj in (("C03", P.p_ast_text), ("C04", P.p_locations), ("C12", P.p_cells), ("C13", P.p_docstrings)):
+    P.PROPS[_pid]["streams"].append(unicode_forms_stream(_pid, _pj))
+
+
+def unicode_forms_pickles(pid, pj):
+    def run(ctx):
+        reqs = [("events", [False, False, True, False, [["u.feature", s]]]) for s in unicode_form_sources()]
+
+        def pr(r_, req=None):
+            if "envelopes" not in r_:
+                return {"outcome": P.outcome(r_)}
+            return [pj(e["pickle"]) for e in r_["envelopes"] if "pickle" in e]
+        return differential("unicode-forms-pickles/" + pid, reqs, proj=pr, nontrivial=lambda q, x: canon(q[1])[:100], classify=lambda q, x: "doc", exhaustive=True)
+    run.__name__ = "unicode_forms_pickles_" + pid
+    run.__doc__ = "placeholders and values are compared code point by code point, whatever their canonical form"
+    return run
+
+
+for _pid, _pj in (("C09", pk_interp), ("C10", pk_types), ("C07", pk_steps)):
+    P.PROPS[_pid]["streams"].append(unicode_forms_pickles(_pid, _pj))
+
+
+def c05_unstable_keywords(ctx):
+    """keywords are matched as listed: those of the table that are not in a canonical form (kn, ml, pa, ta ...) included"""
+    import unicodedata
+    D = S.dialects()
+    srcs = []
+    for code in sorted(D):
+        d = D[code]
+        for role in ("feature", "rule", "background", "scenario", "scenarioOutline", "examples", "given", "when", "then", "and", "but"):
+            for kw in d[role]:
+                if unicodedata.normalize("NFC", kw) == kw and unicodedata.normalize("NFD", kw) == kw:
+                    continue
+                f, sc, g = d["feature"][0], d["scenario"][0], d["given"][-1]
+                if role == "feature":
+                    doc = "%s: x\n  %s: y\n    %sz\n" % (kw, sc, g)
+                elif role in ("given", "when", "then", "and", "but"):
+                    doc = "%s: x\n  %s: y\n    %sfirst\n    %sz\n" % (f, sc, g, kw)
+                elif role == "examples":
+                    doc = "%s: x\n  %s: y\n    %s<a>\n    %s: e\n      | a |\n      | 1 |\n" % (f, d["scenarioOutline"][0], g, kw)
+                elif role == "background":
+                    doc = "%s: x\n  %s: b\n    %sz\n  %s: y\n    %sz\n" % (f, kw, g, sc, g)
+                else:
+                    doc = "%s: x\n  %s: y\n    %sz\n" % (f, kw, g) if role != "rule" else "%s: x\n  %s: r\n    %s: y\n      %sz\n" % (f, kw, sc, g)
+                srcs.append("# language: %s\n%s" % (code, doc))
+    return e2e("unstable-keywords", srcs, P.p_keywords, nontrivial=nt_accepted("ast"), exhaustive=True)
+
+
+P.PROPS["C05"]["streams"].append(c05_unstable_keywords)
+P.PROPS["C10"]["streams"].append(c05_unstable_keywords)
+
+
+def long_runs_ast(pid, proj):
+    def run(ctx):
+        srcs = []
+        for n in (100, 127, 128, 129, 255, 256, 257, 300, 700):
+            comments = "".join("  # c%d\n" % i for i in range(n))
+            mixed = "".join(("  @t%d\n" % i) if i % 5 == 0 else ("  # c%d\n" % i if i % 5 in (1, 2) else "\n") for i in range(n))
+            for run_ in (comments, mixed):
+                srcs.append("Feature: f\n  Scenario: s\n    Given g\n  @first\n" + run_ + "  Scenario: t\n    Given h\n")
+                srcs.append("Feature: f\n  Scenario Outline: s\n    Given <a>\n  @first\n" + run_ + "  Examples:\n    | a |\n    | 1 |\n")
+                srcs.append("Feature: f\n  Scenario: s\n    Given g\n  @first\n" + run_ + "  Rule: r\n    Example: e\n      Given h\n")
+        return e2e("long-look-ahead-runs/" + pid, srcs, proj, nontrivial=nt_accepted("ast"), exhaustive=True)
+    run.__name__ = "long_runs_" + pid
+    run.__doc__ = "a tag line followed by 100 .. 700 comment, blank and tag lines: every line still reaches the AST (comments, tags), in order"
+    return run
+
+
+P.PROPS["C03"]["streams"].append(long_runs_ast("C03", lambda r, req=None: {"ok": erase_ids_locs(r["ok"])} if "ok" in r else {"outcome": P.outcome(r)}))
+
+
+def erase_ids_locs(v):
+    return P.erase(v, ("location", "id"))
+
+
+def c01_language_names(ctx):
+    """a language header naming anything but a listed dialect is a located error (or a comment) -- never a foreign exception:
+    locale-style spellings, case variants, prefixes and extensions of listed names"""
+    names = ["zh_CN", "zh-CN", "zh_cn", "en_au", "en-au", "en_AU", "sr_Cyrl", "sr-Cyrl", "sr_Latn", "en_pirate", "en-pirate", "en_Scouse", "en-Scouse", "EN", "En", "en-",
+             "-en", "en--au", "e", "em", "emo", "en-tx", "en_tx", "pt", "pt_BR", "pt-br", "uz", "uz_cyrl", "__", "-", "_", "a-b_c", "zh-TW", "zh_TW", "tlh", "TLH"]
+    srcs = ["# language: %s\nFeature: f\n  Scenario: s\n    Given g\n" % n for n in names] + ["#language:%s\n" % n for n in names[:12]]
+    reqs = [("parse", [stop, "en", s]) for s in srcs for stop in (False, True)] + [("events", [False, True, True, False, [["u", s]]]) for s in srcs]
+
+    def proj(x, req=None):
+        if "envelopes" in x:
+            return [list(e)[0] for e in x["envelopes"]]
+        return P.p_c01(x)
+    return differential("language-names", reqs, proj=proj, nontrivial=lambda q, x: canon(q[1])[:80], classify=lambda q, x: q[0] + ":" + P.outcome(x), exhaustive=True)
+
+
+P.PROPS["C01"]["streams"].append(c01_language_names)
+P.PROPS["C02"]["streams"].append(long_runs_ast("C02", P.p_tags_ast))
+
+
+def c06_uris(ctx):
+    """the pickles carry the document's uri as it is: backslashes, blanks, dots, non-ASCII, empty"""
+    uris = ["features\\login.feature", "C:\\proj\\a b.feature", "a\\\\b", "./x/../y.feature", "file:///tmp/x.feature", "ü ñ/é.feature", "", " ", "a\tb", "x.feature.md", "\\", "//host/share\\f"]
+    src = "Feature: f\n  Background:\n    Given b\n  Scenario: s\n    Given g\n  Scenario Outline: o <a>\n    Given <a>\n    Examples:\n      | a |\n      | 1 |\n  Rule: r\n    Example: e\n      Given h\n"
+    reqs = [("events", [ps, True, True, False, [[u, src]]]) for u in uris for ps in (False, True)]
+
+    def pr(r_, req=None):
+        if "envelopes" not in r_:
+            return {"outcome": P.outcome(r_)}
+        return [(list(e)[0], (e[list(e)[0]].get("uri") if isinstance(e[list(e)[0]], dict) else None)) for e in r_["envelopes"]]
+    return differential("uris", reqs, proj=pr, nontrivial=lambda q, x: canon(q[1])[:60], classify=lambda q, x: "doc", exhaustive=True)
+
+
+P.PROPS["C06"]["streams"].append(c06_uris)
+P.PROPS["C17"]["streams"].append(c06_uris)
+
+
+def c10_long_conjunction_runs(ctx):
+    """the type of an And / But step is the type of the nearest preceding step that is not one -- however far back it is"""
+    srcs = []
+    for n in (50, 600, 1100, 2500):
+        ands = "".join("    %s s%d\n" % ("And" if i % 2 else "But", i) for i in range(n))
+        srcs.append("Feature: f\n  Background:\n    Given b\n%s  Scenario: s\n    When w\n%s    Then t\n%s" % (ands[:400], ands, ands[:200]))
+        srcs.append("Feature: f\n  Scenario Outline: o\n    Then <a>\n%s    Examples:\n      | a |\n      | 1 |\n" % ands)
+    reqs = [("events", [False, False, True, False, [["u", s]]]) for s in srcs]
+
+    def pr(r_, req=None):
+        if "envelopes" not in r_:
+            return {"outcome": P.outcome(r_), "type": r_.get("foreign")}
+        return [pk_types(e["pickle"]) for e in r_["envelopes"] if "pickle" in e]
+    return differential("long-conjunction-runs", reqs, proj=pr, nontrivial=lambda q, x: str(len(q[1][4][0][1])), classify=lambda q, x: "doc", exhaustive=True)
+
+
+P.PROPS["C10"]["streams"].append(c10_long_conjunction_runs)
+P.PROPS["C01"]["streams"].append(c10_long_conjunction_runs)
+
+
+def c12_control_characters(ctx):
+    """a cell is the text between its pipes whatever characters it holds: NUL and other control characters, separators,
+    line/paragraph separators -- only blanks at its ends go, only the three escapes are decoded"""
+    chars = ["\x00", "\x01", "\x0b", "\x0c", "\x1c", "\x1d", "\x1e", "\x1f", "\x7f", "\x85", "\xa0", "\u2028", "\u2029", "\ufeff", "\u200b", "\r"]
+    rows = []
+    for c in chars:
+        rows += ["| a%sb | %s | x |" % (c, c), "| %sa | b%s | \\n%s |" % (c, c, c), "| \\%s | %s\\| | %s\\\\ |" % (c, c, c)]
+    srcs = ["Feature: f\n  Scenario: s\n    Given g\n      %s\n" % rw for rw in rows]
+    srcs += ["Feature: f\n  Scenario Outline: o\n    Given <x>\n    Examples:\n      | x | y | z |\n      %s\n" % rw for rw in rows]
+    return e2e("control-characters-in-cells", srcs, P.p_cells, nontrivial=nt_accepted("ast"), exhaustive=True)
+
+
+P.PROPS["C12"]["streams"].append(c12_control_characters)
+
+
+def c13_media_types(ctx):
+    """the media type is the text after the opening delimiter, trimmed -- also when it begins or ends with quote marks or
+    backticks, or is made of them"""
+    srcs = []
+    for d, o in (('"""', "`"), ("```", '"')):
+        q = d[0]
+        for mt in (q, q + q, q + "x", q + "quoted" + q, "x" + q, o, o + o + o, o + "x" + o, " " + q + " ", q * 4, "json", "", " ", "<h>", q + "<h>"):
+            srcs.append("Feature: f\n  Scenario Outline: s\n    Given g\n      %s%s\n      body\n      %s\n    Examples:\n      | h |\n      | v |\n" % (d, mt, d))
+            srcs.append("Feature: f\n  Background:\n    Given g\n%s%s\nbody\n%s\n" % (d, mt, d))
+    return e2e("media-types", srcs, P.p_docstrings, nontrivial=nt_accepted("ds"), exhaustive=True)
+
+
+P.PROPS["C13"]["streams"].append(c13_media_types)
